@@ -28,6 +28,7 @@ MAX_DEPTH = 40
 
 # global registry of callee descriptors so that call terms are meaningful across Sym instances
 CALLINFO = []
+_CALLKEYS = {}
 
 
 class Sym:
@@ -112,8 +113,14 @@ class Sym:
     def _cid(self, bb, c):
         if bb in self._callid:
             return self._callid[bb]
+        gk = (self.fn.key if self.fn is not None else None, id(self.body) if self.body is not getattr(self.fn, "body", None) else 0, bb)
+        if gk[1] == 0 and gk in _CALLKEYS:
+            self._callid[bb] = _CALLKEYS[gk]
+            return self._callid[bb]
         CALLINFO.append(c)
         self._callid[bb] = len(CALLINFO) - 1
+        if gk[1] == 0:
+            _CALLKEYS[gk] = self._callid[bb]
         return self._callid[bb]
 
     def operand(self, op, depth=0, stack=()):
@@ -421,6 +428,10 @@ def peel(t, through_calls=IDENT_CALLS, casts=True):
             continue
         if tag == "unwrap":
             chain.append("unwrap")
+            t = t[1]
+            continue
+        if tag == "discr":
+            chain.append("discr")
             t = t[1]
             continue
         return t, chain
